@@ -18,6 +18,7 @@ from coba.safety import SafeLearner
 from coba.exceptions import CobaException
 from coba.context import CobaContext, NullLogger
 from coba.environments import Batch
+from coba.evaluators import SequentialCB
 from coba.primitives import is_batch
 
 ID = "C15"
@@ -27,17 +28,19 @@ RULE = ("case = a grid cell (format in A/AP/PM/{'action'}/{'action_prob'}/{'pmf'
         "row-major/column-major/per-row fallback x batch size 1..4 x action type x number of actions 1..4) plus 48 small "
         "integers from which contexts, action values, chosen indices, probabilities, PMFs, kwargs payloads and the seed are "
         "derived; sub-check 'grid' enumerates every cell with integers computed from the cell index, sub-check 'sampled' "
-        "draws cell and integers with Hypothesis, sub-check 'seeds' draws long PMF runs; a case is non-trivial when the "
+        "draws cell and integers with Hypothesis, sub-check 'seeds' draws long PMF runs, sub-check 'evaluator' runs a PMF double through "
+        "SequentialCB(seed=s) under generated experiment seeds; a case is non-trivial when the "
         "per-row answer has two elements, or the batch is square (batch size == answer width), or the actions contain 0/1; "
         "distinct = distinct canonical JSON of the case")
 ASSUMPTIONS = [
+    "evaluator sub-check: SequentialCB(seed=s) is expected to seed its SafeLearner with s itself (docstring: 'seed: Determine which action is played when learners return an action PMF'), and with CobaContext.store['experiment_seed'] when s is None; with neither, draws are time-seeded and only their validity is checked",
     "PMF entries are fresh float objects (never the same object as an offered action); integer one-hot PMFs such as [1,0] are generated for un-batched calls only, where SafeLearner hands out float copies of the actions 0 and 1",
     "bare (un-hinted) answers are only used where they can be read one way: a bare sparse-dict action, a dense action of length 1 and a PMF over a single action use the documented dict hints instead",
     "a CobaException that asks for format hints counts as correct behaviour for un-hinted answers (never for hinted ones)",
     "doubles that cannot batch raise on batched arguments in predict and in learn; they never return a wrong-shaped answer",
     "all rows of one batch have the same number of actions; action sets have no duplicates; kwargs keys are plain identifiers other than the hint names",
     "column-major layouts are the ones coba's own tests name: {'hint':[row values]}, [A-column,P-column], [mass columns per action], each optionally followed by a kwargs mapping of per-row lists; a bare action column is the same list as the row-major answer",
-    "two different seeds are taken from 1..1000; a run of >= 40 uniform draws over >= 2 actions that is identical for two seeds, or constant over all calls, is treated as a violation (chance < 1e-10 per case)",
+    "two different seeds are taken from 0..1000 (0 and 0.0 included); a run of >= 40 uniform draws over >= 2 actions that is identical for two seeds, or constant over all calls, is treated as a violation (chance < 1e-10 per case)",
 ]
 
 CobaContext.logger = NullLogger()
@@ -365,6 +368,93 @@ def run_seeds(case):
     per_call = [tuple(i1[c * b:(c + 1) * b]) for c in range(ncalls)]
     require(len(set(per_call)) > 1, "every call drew the same actions from a uniform PMF (the random stream is restarted per call)", cell=cell, seed=s1, draws=per_call[:6])
 
+# ----------------------------------------------------------------------------------------- evaluator-level seed plumbing
+EV_SEEDS = [0, 0.0, 1, 2, 7, 1000, None]
+EV_ROWS = 24
+
+class PlanEnv:
+    """a small simulated environment built from the rows of a plan (fresh objects on every read)"""
+    def __init__(self, rows, batch):
+        self.rows, self.batch = rows, batch
+    @property
+    def params(self):
+        return {}
+    def read(self):
+        its = [{"context": copy.deepcopy(r["ctx"]), "actions": copy.deepcopy(r["actions"]), "rewards": list(r["rwds"])} for r in self.rows]
+        return Batch(self.batch).filter(its) if self.batch else its
+
+def ev_plan(case):
+    cell = case["cell"]
+    n, shape = cell["n"], cell["shape"]
+    b = 0 if shape == "single" else cell["b"]
+    nx = Ints(case["ints"])
+    base = action_set(cell["atype"], n, nx)
+    rows = [{"ctx": rid, "actions": base, "choice": 0, "p": 1.0, "pmf": [1 / n] * n, "kw": None, "reward": nx(5) / 4,
+             "rwds": [((rid + j) % 3) / 2 for j in range(n)]} for rid in range(EV_ROWS)]
+    calls = [rows[i:i + b] for i in range(0, len(rows), b)] if b else [[r] for r in rows]
+    return rows, b, {"calls": calls, "ctxkind": "int"}
+
+def run_evaluator(case):
+    """SequentialCB(seed=s) must hand its seed (or, for None, the experiment seed) to the PMF sampler: 'seed: Determine which
+    action is played when learners return an action PMF' (SequentialCB docstring)."""
+    cell = dict(case["cell"], kw=False)
+    rows, b, plan = ev_plan(case)
+    batch_ok = cell["shape"] in ("row", "col")
+    s = case["seed"]
+    full = {"cell": cell, "ints": case["ints"]}
+    saved = dict(CobaContext.store)
+
+    def evaluate(exp_seed):
+        CobaContext.store.pop("experiment_seed", None)
+        if exp_seed is not None: CobaContext.store["experiment_seed"] = exp_seed
+        learner = FmtLearner(cell, plan, batch_ok)
+        out = list(SequentialCB(record=["action", "probability"], learn="on", eval="on", seed=s).evaluate(PlanEnv(rows, b), learner))
+        require(len(out) == len(rows), "expected one row per interaction", rows=len(out), interactions=len(rows), cell=cell)
+        for r, o in zip(rows, out):
+            require(any(eq(o["action"], a) for a in r["actions"]) and eq(o["probability"], 1 / cell["n"]),
+                    "the recorded action/probability is not a draw from the learner's PMF", row=o, offered=r["actions"], cell=cell)
+        return [[i for i, a in enumerate(r["actions"]) if eq(o["action"], a)][0] for r, o in zip(rows, out)]
+
+    def direct(seed):
+        got, _ = drive(full, plan, batch_ok, seed)
+        return [[i for i, a in enumerate(g["offered"]) if eq(g["got"][0], a)][0] for g in got]
+
+    try:
+        e1, e2 = case["exp1"], case["exp2"]
+        if s is not None:
+            r1, r2 = evaluate(e1), evaluate(e2)
+            require(r1 == r2, "two evaluations with the same explicit seed drew different actions (the experiment seed leaked in)",
+                    seed=s, experiment_seeds=(e1, e2), first=r1, second=r2, cell=cell)
+            d = direct(s)
+            require(r1 == d, "SequentialCB(seed=s) did not draw what SafeLearner(learner, s) draws for the same calls (the seed is not handed on)",
+                    seed=s, experiment_seed=e1, evaluator=r1, safelearner=d, cell=cell)
+        elif e1 is not None:
+            r1, r2 = evaluate(e1), evaluate(e1)
+            require(r1 == r2, "seed=None: two evaluations under the same experiment seed drew different actions", experiment_seed=e1, first=r1, second=r2, cell=cell)
+            d = direct(e1)
+            require(r1 == d, "seed=None: the experiment seed does not decide the draws", experiment_seed=e1, evaluator=r1, safelearner=d, cell=cell)
+        else:
+            evaluate(None)      # no seed anywhere: time-seeded by design, only validity of the rows is checked
+    finally:
+        CobaContext.store.clear()
+        CobaContext.store.update(saved)
+
+@st.composite
+def evaluator_cases(draw, tier):
+    cell = {"fmt": draw(st.sampled_from(["PM", "hPM"])), "kw": False, "shape": draw(st.sampled_from(SHAPES)),
+            "b": draw(st.sampled_from(BS)), "atype": draw(st.sampled_from(ATYPES)), "n": draw(st.sampled_from([2, 3, 4]))}
+    if cell["shape"] == "single": cell["b"] = 0
+    seed = draw(st.sampled_from(EV_SEEDS + [0, 0.0]))
+    exps = st.one_of(st.none(), st.integers(0, 1000))
+    e1, e2 = draw(exps), draw(exps)
+    if seed is not None and e1 == e2:
+        e2 = 5 if e1 is None else e1 + 1          # different experiment seeds (or one absent) behind the same explicit seed
+    return {"cell": cell, "ints": draw(st.lists(st.integers(0, 65535), min_size=8, max_size=8)), "seed": seed, "exp1": e1, "exp2": e2}
+
+def ev_classes(case):
+    return [f"seed={case['seed']!r}", f"shape={case['cell']['shape']}",
+            "experiment_seed:" + ("both" if case["exp1"] is not None and case["exp2"] is not None else "one absent" if (case["exp1"] is None) != (case["exp2"] is None) else "absent")]
+
 # ----------------------------------------------------------------------------------------- generators
 def cells():
     for fmt in FORMATS:
@@ -406,8 +496,9 @@ def seed_cases(draw, tier):
     cell = {"fmt": draw(st.sampled_from(["PM", "hPM"])), "kw": False, "shape": draw(st.sampled_from(SHAPES)),
             "b": draw(st.sampled_from(BS)), "atype": draw(st.sampled_from(ATYPES)), "n": draw(st.sampled_from([2, 3, 4]))}
     if cell["shape"] == "single": cell["b"] = 0
-    s1 = draw(st.integers(1, 1000)); s2 = draw(st.integers(1, 999))
-    if s2 >= s1: s2 += 1
+    s1 = draw(st.sampled_from([0, 0.0])) if draw(st.integers(0, 4)) == 0 else draw(st.integers(0, 1000))
+    s2 = draw(st.integers(0, 999))
+    if s2 >= s1: s2 += 1       # numerically different from s1 (0 and 0.0 are the same seed)
     return {"cell": cell, "ints": draw(st.lists(st.integers(0, 65535), min_size=4, max_size=4)), "seed1": s1, "seed2": s2}
 
 # ----------------------------------------------------------------------------------------- evidence
@@ -433,6 +524,7 @@ def classes(case):
     return out
 
 def view(case):
+    if "exp1" in case: return case
     plan = build(case) if "seed1" not in case else None
     v = {"cell": case["cell"]}
     if plan:
@@ -448,5 +540,8 @@ SUBCHECKS = [
     Sub(name="sampled", run=run_case, strategy=sampled, nontrivial=nontrivial, classes=classes, quick=6000, thorough=150000, quick_shards=3, sample_view=view,
         what="same oracle, cell and all values (contexts, action values, choices, probabilities, PMFs, kwargs payloads, seed, 1-6 calls) drawn by Hypothesis, square batches over-sampled"),
     Sub(name="seeds", run=run_seeds, strategy=seed_cases, nontrivial=lambda c: True, classes=classes, quick=600, thorough=20000, quick_shards=1, sample_view=view,
-        what="40+ uniform PMF draws per case in every call shape: equal seeds repeat the run, different seeds differ somewhere, the draws are not the same in every call"),
+        what="40+ uniform PMF draws per case in every call shape: equal seeds (0 and 0.0 included) repeat the run, different seeds differ somewhere, the draws are not the same in every call"),
+    Sub(name="evaluator", run=run_evaluator, strategy=evaluator_cases, nontrivial=lambda c: c["seed"] is not None or c["exp1"] is not None, classes=ev_classes,
+        quick=500, thorough=10000, quick_shards=1, sample_view=view,
+        what="a PMF-answering double evaluated through SequentialCB(seed=s) over 24 simulated interactions (un-batched or Batch(1..4), every call shape), s in {0, 0.0, 1, 2, 7, 1000, None} with CobaContext.store['experiment_seed'] set to generated values or absent: equal explicit seeds give equal action rows whatever the experiment seed, the rows equal the draws of SafeLearner(double, s) for the same calls, with seed=None the experiment seed decides"),
 ]
